@@ -1,5 +1,5 @@
 """C08 — service registry: one live instance per type, spawned on demand, linearizable."""
-import core, nfa, loops, graph
+import core, nfa, loops, graph, inline
 from mir import Body, sinks, agg_sites
 from props.c15 import roots
 
@@ -15,6 +15,10 @@ EXPL = ("R08.1 (A4) the REGISTRY static is referenced only by the registry opera
 
 REG = "actor::service::REGISTRY"
 LIVE = {"addr::Addr::<A>::running": "R", "addr::Addr::<A>::stopped": "S"}
+
+
+OPS = ("addr::Addr::<A>::register", "addr::Addr::<A>::replace", "addr::Addr::<A>::unregister", "actor::service::Service::already_running",
+       "actor::service::Service::try_from_registry", "actor::service::SpawnableService::from_registry_and_spawn")
 
 
 def refs_registry(f):
@@ -181,6 +185,11 @@ class RegisterSpec(nfa.Spec):
             return ("absent",)
         if ev == "sw:Option::Some" and ph == "s0":
             return ("present",)
+        # `contains_key(key)` first, the liveness of the entry second
+        if ev == "bool:has=1" and ph == "s0":
+            return ("present",)
+        if ev == "bool:has=0" and ph == "s0":
+            return ("absent",)
         # one combined test `get(key).is_some_and(|e| <live>)`: true = a live entry, false = none or a terminated one
         if ev == "bool:live=1" and ph == "s0":
             return ("alive",)
@@ -206,7 +215,7 @@ class RegisterSpec(nfa.Spec):
             if ph == "inserted":
                 return nfa.Err("R08.3: register inserts twice")
             return ("inserted",)
-        if ev == "retval:Err":
+        if ev in ("retval:Err", "retval:residual"):  # `?` hands on the failure the critical section decided on
             if ph != "alive":
                 return nfa.Err("R08.3: register fails although no live instance is registered (phase %s)" % ph)
             return ("errret",)
@@ -219,34 +228,48 @@ class RegisterSpec(nfa.Spec):
         return st
 
 
-def registry_alphabet():
+def registry_alphabet(fx=None):
+    launchers = loops.launch_helpers(fx) if fx is not None else {}
+
     def acq(kind):
         return lambda t: is_acquire(t) and acquire_kind(t) == kind
     calls = [("acq_" + k, acq(k)) for k in ("write", "read", "try_read", "try_write", "upgradable_read", "write_blocking", "read_blocking")]
     calls += [
         ("mapinsert", lambda t: is_mapop(t) and (t.get("callee") or "").endswith(("::insert", "::entry", "::get_or_insert_with"))),
         ("mapremove", lambda t: is_mapop(t) and (t.get("callee") or "").endswith(("::remove", "::remove_entry", "::clear", "::retain"))),
+        ("has", lambda t: is_mapop(t) and (t.get("callee") or "").endswith("::contains_key")),
         ("mapread", lambda t: is_mapop(t)),
         ("dead", lambda t: call_liveness(t) == "dead"),
         ("live", lambda t: live_fn_arg(t) is not None or call_liveness(t) == "live"),
-        ("spawn", nfa.trait_method("actor::spawner::Spawner", "spawn_actor")),
+        # spawn_actor itself, or a shared helper that creates the loop for the given actor, spawns it and returns (addr, handle)
+        ("spawn", lambda t: nfa.trait_method("actor::spawner::Spawner", "spawn_actor")(t) or (t.get("resolved") or t.get("callee")) in launchers or t.get("callee") in launchers),
         ("detach", nfa.callee_is("actor::spawner::actor_handle::ActorHandle::<A>::detach")),
         ("memdrop_guard", lambda t: (t.get("callee") == "core::mem::drop") and "async_lock::rwlock::RwLock" in " ".join(t.get("argtys", []))),
     ]
-    a = nfa.Alphabet(calls=calls, adts={"core::option::Option": "Option", "core::result::Result": "Res"}, bools={"dead", "live"}, retval=True)
+    a = nfa.Alphabet(calls=calls, adts={"core::option::Option": "Option", "core::result::Result": "Res"}, bools={"dead", "live", "has"}, retval=True)
     a.drop_types = [("async_lock::rwlock::RwLockWriteGuard<", "guard"), ("async_lock::rwlock::RwLockReadGuard<", "guard"), ("async_lock::rwlock::RwLockUpgradableReadGuard<", "guard")]
     return a
 
 
 def chain(b, operand, depth=0):
     """callees along the first-argument chain that produced a value (combinator pipelines)"""
+    return _chain_from(b, b.origins(operand, through_calls=False), depth)
+
+
+def _chain_from(b, origs, depth):
     out = []
-    for o in b.origins(operand, through_calls=False):
-        if o.kind == "call" and depth < 12:
+    for o in origs:
+        if o.kind == "call" and depth < 16:
             t = b.call_at(o)
             out.append(t)
             if t["args"]:
-                out.extend(chain(b, t["args"][0], depth + 1))
+                fields = [e for e in o.proj if isinstance(e, str) and e.startswith("f") and e[1:].isdigit()]
+                if (t.get("callee") or "").endswith("Try::branch") and fields[:1] == ["f0"] and t["args"][0].get("k") in ("move", "copy"):
+                    # `x?`: the payload of Continue is the payload of the Ok / Some that was tested (visible when the
+                    # tested value is a literal `Ok(v)` of an inlined helper or closure)
+                    out.extend(_chain_from(b, b.origins_operand(t["args"][0], ("f0",), False, set()), depth + 1))
+                else:
+                    out.extend(chain(b, t["args"][0], depth + 1))
     return out
 
 
@@ -267,6 +290,25 @@ def check_cfg(ctx, fx, cfg):
     acc = accessors(fx)
     # the registry operations: whoever refers to the static, or takes its lock through an accessor function
     users = [f for f in fx.d["fns"] if (refs_registry(f) and f["def"] not in acc) or any((t.get("resolved") or t.get("callee")) in acc for _, t in ctx.body(fx, f).normal_calls())]
+    # an operation may reach the table only through a private helper that takes the lock and runs the closure it is given
+    # under it (`with_registry_mut(|table| ..).await`): its value rules are judged on the body with such helpers (and the
+    # closure) inlined, its event rules on the automaton with the same helpers spliced
+    inl_users = {}
+    plain_roots = {f.get("root", f["def"]) for f in users}
+    for f in fx.d["fns"]:
+        if f.get("root", f["def"]) in plain_roots or f["kind"] == "closure":
+            continue
+        rec = inline.inlined(fx, f, inline.not_public)
+        if rec["inlined_from"] and refs_registry(rec):
+            inl_users[f["def"]] = rec
+    # the outermost body of each such operation only (its closures are part of the inlined body)
+    for d_ in sorted(inl_users):
+        f = fx.fn(d_)
+        if not any(d_ != e_ and e_ in inl_users and (d_.startswith(e_ + "::")) for e_ in inl_users) or f["kind"] == "coroutine" and fx.fn(f.get("parent") or "") is not None and (fx.fn(f["parent"]) or {}).get("is_async") and f["parent"] in inl_users:
+            users.append(f)
+    users = [f for i, f in enumerate(users) if f["def"] not in {g["def"] for g in users[:i]}]
+    # an async fn and its coroutine: the coroutine is the body
+    users = [f for f in users if not (f["def"] in inl_users and f.get("is_async") and any(g.get("parent") == f["def"] and g["def"] in inl_users for g in users))]
     roots_ = sorted({f.get("root", f["def"]) for f in users})
     ctx.floor("R08.1", "registry operations (%s)" % cfg, len(roots_), 1 if cfg == "bare" else 3)
     for r in roots_:
@@ -305,13 +347,20 @@ def check_cfg(ctx, fx, cfg):
     # R08.6 the liveness the registry decides on is truthful for every termination cause (shared with C14)
     from props import c14
     c14.check_queries(ctx, fx, "R08.6", "@" + cfg)
-    A = registry_alphabet()
+    A = registry_alphabet(fx)
+    judged = set()
     for f in users:
-        b = ctx.body(fx, f)
+        b = inline.body(ctx, fx, f, inline.not_public) if f["def"] in inl_users else ctx.body(fx, f)
         root = f.get("root", f["def"])
         short = root.split("::")[-1]
+        if root not in OPS and (fx.fn(root) or {}).get("vis") != "pub":
+            # a private function that one of the operations merely forwards to (`fn from_registry_and_spawn() -> impl Future
+            # { get_or_spawn::<Self, S>() }`) is that operation's body
+            fw = sorted({g.get("root", g["def"]) for g, _bi, _t in graph.all_calls(fx, lambda x, r_=root: (x.get("resolved") or x.get("callee")) == r_ or x.get("callee") == r_)} & (set(OPS) - set(roots_)))
+            if fw:
+                short = fw[-1].split("::")[-1]
         inst = "%s@%s" % (short, cfg)
-        n = nfa.build(b, A, fx, depth=2)  # helpers that are lent the locked table run inside the critical section
+        n = nfa.build(ctx.body(fx, f), A, fx, depth=2)  # helpers that are lent the locked table run inside the critical section
         writes = len(nfa.edges_labelled(n, "call:mapinsert")) + len(nfa.edges_labelled(n, "call:mapremove")) > 0
         spawns = len(nfa.edges_labelled(n, "call:spawn")) > 0
         viols, ps = nfa.check(n, LockScope(writes, spawns))
@@ -354,6 +403,7 @@ def check_cfg(ctx, fx, cfg):
                         return bool(ho_) and all(x.kind == "call" and (hb_.call_at(x).get("callee") or "").endswith("::of") and (hb_.call_at(x).get("gargs") or [None])[0] == (gen_[0] if gen_ else None) for x in ho_)
                     kok = bool(kr) and all(o.kind == "call" and is_key(b.call_at(o)) for o in kr)
                     ctx.require(kok, "R08.2", inst + ":key:" + t["callee"].split("::")[-1], "the registry key is not TypeId::of the service type", fn=f["def"], site=t["l"])
+        judged.add(short)
         if short == "register":
             viols, ps = nfa.check(n, RegisterSpec())
             ctx.count_nfa({}, ps)
@@ -383,6 +433,14 @@ def check_cfg(ctx, fx, cfg):
                     hnames = [x["callee"].split("::")[-1] for x in chain(ctx.body(fx, h_), {"k": "move", "p": [0]})]
                     has_get = "get" in hnames or "get_mut" in hnames
             ok = has_get and len(filt) == 1 and filter_is_running(ctx, fx, b, filt[0])
+            if not ok and not filt:
+                # explicit form: `let addr = registry.get(&key)?.downcast_ref()?; addr.running().then(|| addr.clone())`
+                thens = [x for x in ch if (x.get("callee") or "").endswith(("bool::{impl#0}::then", "bool::{impl#0}::then_some", "::then", "::then_some")) and (x.get("argtys") or [""])[0] == "bool"]
+                gets = [x for _, x in b.normal_calls() if is_mapop(x) and x["callee"].endswith(("::get", "::get_mut"))]
+                if len(thens) == 1 and gets:
+                    cond = b.origins(thens[0]["args"][0], through_calls=False)
+                    ok = bool(cond) and all(o.kind == "call" and call_liveness(b.call_at(o)) == "live" for o in cond)
+                    names = names + ["(live).then"]
             ctx.require(ok, "R08.3", inst, "try_from_registry must hand out the registered address only behind the `running` filter: pipeline %s" % names, fn=f["def"], site=f["loc"], detail=names)
         elif short == "already_running":
             lives = []
@@ -393,10 +451,15 @@ def check_cfg(ctx, fx, cfg):
                     if lf:
                         lives.append((lf, t["callee"].split("::")[-1]))
             nots = any(st["r"].get("op") == "Not" for g in graph.family(fx, root) for blk in g["pre"]["blocks"] for st in blk["s"] if st["k"] == "assign" and st["r"]["k"] == "un")
-            ok = lives == [("addr::Addr::<A>::running", "map")] and not nots
+            ok = len(lives) == 1 and ((lives[0][0] == "addr::Addr::<A>::running" and not nots) or (lives[0][0] == "addr::Addr::<A>::stopped" and nots))
             ctx.require(ok, "R08.4", inst, "already_running must report Some(true) for a live and Some(false) for a terminated instance: it maps the entry through %s%s" % (lives, " with a negation" if nots else ""), fn=root, site=f["loc"], detail=lives)
         elif short == "from_registry_and_spawn":
             check_spawn_on_demand(ctx, fx, f, b, n, inst)
+    # fail closed: every registry operation the crate defines was found to use the registry and was judged above (an
+    # operation that reaches the table through a construct this analysis does not see through must not pass silently)
+    for op_ in OPS:
+        if fx.fn(op_) is not None:
+            ctx.require(op_.split("::")[-1] in judged, "R08.1", "operation-analysed:%s@%s" % (op_.split("::")[-1], cfg), "the registry operation %s was not found to use the registry: it cannot be judged" % op_, fn=op_, site=fx.fn(op_)["loc"])
 
 
 def check_forwarders(ctx, fx, cfg, spawn_op):
@@ -431,6 +494,19 @@ def filter_is_running(ctx, fx, b, t):
     return False
 
 
+def _is_op_or_wrapper(ctx, fx, x, op, depth=0):
+    """the map operation itself, or a crate-local synchronous method that hands back what the map operation returned
+    (`Registry::insert(&mut self, addr) -> Option<Addr<A>> { self.0.insert(..).and_then(Self::unbox) }`)"""
+    if is_mapop(x) and x["callee"].endswith("::" + op):
+        return True
+    h = fx.callee_fn(x)
+    if h is None or h.get("is_async") or depth > 1:
+        return False
+    hb = ctx.body(fx, h)
+    ch = chain(hb, {"k": "move", "p": [0]})
+    return any(_is_op_or_wrapper(ctx, fx, y, op, depth + 1) for y in ch)
+
+
 def check_returns_map_result(ctx, fx, f, b, inst, op, tuple_field=None):
     """the returned previous entry is what the map operation returned"""
     good = False
@@ -453,13 +529,13 @@ def check_returns_map_result(ctx, fx, f, b, inst, op, tuple_field=None):
         if t["k"] == "call" and t["dest"] == [0] and not blk["c"]:
             cands.append(None)
             ch = [t] + chain(b, t["args"][0]) if t["args"] else [t]
-            if any(is_mapop(x) and x["callee"].endswith("::" + op) for x in ch):
+            if any(_is_op_or_wrapper(ctx, fx, x, op) for x in ch):
                 good = True
     for c in cands:
         if c is None:
             continue
         ch = chain(b, c)
-        if any(is_mapop(x) and x["callee"].endswith("::" + op) for x in ch):
+        if any(_is_op_or_wrapper(ctx, fx, x, op) for x in ch):
             good = True
     ctx.require(good, "R08.3", inst + ":returns-previous", "the previous entry returned must be what HashMap::%s returned" % op, fn=f["def"], site=f["loc"])
 
@@ -478,6 +554,44 @@ def check_spawn_on_demand(ctx, fx, f, b, n, inst):
     ctx.require(reuse_ok, "R08.3", inst + ":reuse-only-if-running", "a registered instance must be reused only if it is running", fn=f["def"], site=f["loc"])
     # spawn branch
     cl = [(bi, t) for bi, t in b.normal_calls() if (t.get("callee") or "").endswith("::create_loop")]
+    launchers = loops.launch_helpers(fx)
+    lc = [(bi, t) for bi, t in b.normal_calls() if (t.get("resolved") or t.get("callee")) in launchers or t.get("callee") in launchers]
+    if not cl and lc:
+        # `let (addr, handle) = Environment::unbounded().launch::<S>(Self::default())`: the helper's summary says that the loop
+        # created for the actor it is given is the one spawned, and which field of its result is that loop's address
+        if not ctx.require(len(lc) == 1, "R08.3", inst + ":one-create", "expected exactly one loop creation in spawn-on-demand", fn=f["def"], site=f["loc"]):
+            return
+        lbi, lt = lc[0]
+        h = launchers.get(lt.get("resolved")) or launchers.get(lt.get("callee"))
+        ar = roots(b, lt["args"][h["actor"]])
+        ctx.require(bool(ar) and all(r.kind == "call:core::default::Default::default" for r in ar), "R08.3", inst + ":fresh-default", "the on-demand instance must be a fresh Default value", fn=f["def"], site=lt["l"])
+        ins = [t for _, t in b.normal_calls() if is_mapop(t) and t["callee"].endswith("::insert")]
+        ins_val = ins[0]["args"][2] if len(ins) == 1 else None
+        if not ins:
+            ins = [t for _, t in b.normal_calls() if fx.callee_fn(t) is not None and _is_op_or_wrapper(ctx, fx, t, "insert")]
+            if len(ins) == 1:
+                vi = [i for i, a in enumerate(ins[0].get("argtys", [])) if a.startswith("addr::Addr<")]
+                ins_val = ins[0]["args"][vi[0]] if vi else None
+        ok = len(ins) == 1 and ins_val is not None
+        if ok:
+            def from_launch(op, depth=0):
+                os_ = b.origins(op)
+                if not os_:
+                    return False
+                for o in os_:
+                    if o.kind == "call" and o.site == (lbi,):
+                        if o.proj[:1] != (h["addr"],):
+                            return False
+                    elif o.kind == "call" and depth < 3 and b.call_at(o)["args"]:
+                        if not from_launch(b.call_at(o)["args"][0], depth + 1):
+                            return False
+                    else:
+                        return False
+                return True
+            ok = from_launch(ins_val)
+        ctx.require(ok, "R08.3", inst + ":inserted-is-spawned", "the address inserted must be the address of the loop that is spawned", fn=f["def"], site=f["loc"])
+        _order(ctx, fx, f, n, inst)
+        return
     if not cl:
         for b_ in bodies[1:]:
             if any((t.get("callee") or "").endswith("::create_loop") for _, t in b_.normal_calls()):
@@ -491,8 +605,15 @@ def check_spawn_on_demand(ctx, fx, f, b, n, inst):
     ar = roots(b, ct["args"][1])
     ctx.require(all(r.kind == "call:core::default::Default::default" for r in ar), "R08.3", inst + ":fresh-default", "the on-demand instance must be a fresh Default value", fn=f["def"], site=ct["l"])
     ins = [t for _, t in b.normal_calls() if is_mapop(t) and t["callee"].endswith("::insert")]
+    ins_val = ins[0]["args"][2] if len(ins) == 1 else None
+    if not ins:
+        # a typed wrapper of the table: `registry.insert(addr.clone())`
+        ins = [t for _, t in b.normal_calls() if fx.callee_fn(t) is not None and _is_op_or_wrapper(ctx, fx, t, "insert")]
+        if len(ins) == 1:
+            vi = [i for i, a in enumerate(ins[0].get("argtys", [])) if a.startswith("addr::Addr<")]
+            ins_val = ins[0]["args"][vi[0]] if vi else None
     sp = [t for _, t in b.normal_calls() if nfa.trait_method("actor::spawner::Spawner", "spawn_actor")(t)]
-    ok = len(ins) == 1 and len(sp) == 1
+    ok = len(ins) == 1 and len(sp) == 1 and ins_val is not None
     if ok:
         def from_create(op, field):
             for o in b.origins(op):
@@ -516,8 +637,12 @@ def check_spawn_on_demand(ctx, fx, f, b, n, inst):
                 else:
                     rs.add("other:" + o.kind)
             return rs == {field}
-        ok = from_create(ins[0]["args"][2], "f1") and from_create(sp[0]["args"][0], "f0")
+        ok = from_create(ins_val, "f1") and from_create(sp[0]["args"][0], "f0")
     ctx.require(ok, "R08.3", inst + ":inserted-is-spawned", "the address inserted must be the address of the loop that is spawned", fn=f["def"], site=f["loc"])
+    _order(ctx, fx, f, n, inst)
+
+
+def _order(ctx, fx, f, n, inst):
     # the address returned on the spawn path is that same address
     # spawn before insert, handle detached, all under the guard (LockScope) — and order: spawn -> detach -> insert
     class Order(nfa.Spec):
